@@ -841,8 +841,8 @@ pub fn generate(repo: &str) -> R<String> {
     let (shortcuts, impls) = readme_tables(&readme)?;
     let _ = writeln!(o, "/-- README shortcut table: shortcut ↦ the basic instructions ticked in its column -/\ndef readmeShortcuts : List (String × List String) := [{}]",
         shortcuts.iter().map(|(s, v)| format!("({}, {})", lean_str(s), lean_list(v))).collect::<Vec<_>>().join(", "));
-    let _ = writeln!(o, "/-- README list of the 12 impls: (basic instruction, fallible, trait path, trait argument is `&A`, self type is `&B`) -/\ndef readmeImpls : List (String × Bool × String × Bool × Bool) := [{}]",
-        impls.iter().map(|(b, f, t, a, s)| format!("({}, {}, {}, {}, {})", lean_str(b), f, lean_str(t), a, s)).collect::<Vec<_>>().join(", "));
+    let _ = writeln!(o, "/-- README list of the 12 impls: (basic instruction, fallible, trait path segments (leading \"\" = absolute), trait argument is `&A`, self type is `&B`) -/\ndef readmeImpls : List (String × Bool × List String × Bool × Bool) := [{}]",
+        impls.iter().map(|(b, f, t, a, s)| format!("({}, {}, {}, {}, {})", lean_str(b), f, lean_list(&t.split("::").map(|x| x.to_string()).collect::<Vec<_>>()), a, s)).collect::<Vec<_>>().join(", "));
     let _ = writeln!(o, "def declaredAttrs : List String := {}", lean_list(&declared_attrs(&macros)?));
     o.push('\n');
     // G5
